@@ -386,13 +386,39 @@ theorem inv_advance {s s' : TState} {i : Inst} {E' : EState} {H' : HState}
     simp only [InvP]
     exact ⟨hpc, htr, hd⟩
 
+theorem setReady_eq (s s' : TState) (h : setReady s = some s') :
+    ∃ st ib, removeStale s.pc s.ibStart s.ib = some (st, ib) ∧
+      s' = { s with ph := .ready, cur := none, ibStart := st, ib := ib } := by
+  unfold setReady at h
+  split at h
+  · cases h
+  · rename_i st ib hrs
+    cases h
+    exact ⟨st, ib, hrs, rfl⟩
+
+theorem inv_setReady {s s' : TState} {E' : EState} {H' : HState}
+    (ha : setReady s = some s')
+    (hc : InvC s.vm s.lgkm s.vq s.sq H') (hr : InvR s.regs s.mem (s.vq ++ s.sq) E'.regs)
+    (hm : InvM P.own s.mem s.vq E'.mem)
+    (hib : ∀ k (h : k < s.ib.length), s.ib[k] = P.imem (s.ibStart + k)) (hti : s.toIssue = none)
+    (hpc : E'.pc = s.pc) (htr : E'.trace = s.trace) (hd : E'.done = false)
+    (hpd : ∀ p ∈ s.vq ++ s.sq, PendOK P p) : Inv P s' E' H' := by
+  obtain ⟨st, ib, hrs, rfl⟩ := setReady_eq s s' ha
+  refine ⟨hc, hr, hm, ⟨removeStale_ibok P _ _ _ st ib hib hrs, ?_⟩, ?_, hpd⟩
+  · intro j hj
+    rw [hti] at hj
+    cases hj
+  · show InvP P .ready none s.pc s.trace s.vq s.sq E'
+    simp only [InvP]
+    exact ⟨hpc, htr, hd⟩
+
 /-- the wavefront has issued `i`; the emulator is about to execute the same instruction and the
     hazard-free run provides its next state -/
 theorem issued_pre {fuel : Nat} {x0 : EState × HState} (hfr : hazardFreeRun P fuel x0 = true)
     {T : TState} {i : Inst} (hs : Sim P x0 T) (hcur : T.cur = some i) (hph : T.ph = .issued) :
     ∃ n E H E' H', Inv P T E H ∧ ehrun P (n + 1) x0 = some (E', H') ∧ P.instAt T.pc = some i ∧
       E.pc = T.pc ∧ T.trace = E.trace ++ [T.pc] ∧ E.done = false ∧
-      hstep false H i (i.fpl E.regs) (i.noTxn E.regs) = some H' ∧ estep P E = some E' ∧
+      hstep false P.oldCU H i (i.fpl E.regs) (i.noTxn E.regs) = some H' ∧ estep P E = some E' ∧
       accOK P i E.regs = true := by
   obtain ⟨n, E, H, hrun, hinv⟩ := hs
   have hp := hinv.p
@@ -405,7 +431,7 @@ theorem issued_pre {fuel : Nat} {x0 : EState × HState} (hfr : hazardFreeRun P f
   have hrun' := ehrun_snoc P n x0 (E, H) y hrun hy
   unfold ehstep at hy
   simp only [hd, Bool.false_eq_true, if_false, hpc, hi] at hy
-  cases hh : hstep false H i (i.fpl E.regs) (i.noTxn E.regs) with
+  cases hh : hstep false P.oldCU H i (i.fpl E.regs) (i.noTxn E.regs) with
   | none => simp [hh] at hy
   | some H' =>
     cases he : estep P E with
@@ -434,25 +460,25 @@ theorem estep_eq {E E' : EState} {i : Inst} (he : estep P E = some E') (hi : P.i
   simp only [hi] at he
   cases hk : i.kind <;> simp only [hk] at he ⊢ <;> cases he <;> rfl
 
-theorem hstep_alu {H H' : HState} {i : Inst} {fp : Ranges} {e : Bool} {u : Nat} (hk : i.kind = .alu u)
-    (h : hstep false H i fp e = some H') : regOK H i = true ∧ H' = H := by
+theorem hstep_alu {H H' : HState} {i : Inst} {fp : Ranges} {e old : Bool} {u : Nat} (hk : i.kind = .alu u)
+    (h : hstep false old H i fp e = some H') : regOK H i = true ∧ H' = H := by
   unfold hstep at h
   simp only [hk] at h
   split at h
   · rename_i hr; cases h; exact ⟨hr, rfl⟩
   · cases h
 
-theorem hstep_branch {H H' : HState} {i : Inst} {fp : Ranges} {e : Bool} (hk : i.kind = .branch)
-    (h : hstep false H i fp e = some H') : regOK H i = true ∧ H' = H := by
+theorem hstep_branch {H H' : HState} {i : Inst} {fp : Ranges} {e old : Bool} (hk : i.kind = .branch)
+    (h : hstep false old H i fp e = some H') : regOK H i = true ∧ H' = H := by
   unfold hstep at h
   simp only [hk] at h
   split at h
   · rename_i hr; cases h; exact ⟨hr, rfl⟩
   · cases h
 
-theorem hstep_vmem {H H' : HState} {i : Inst} {fp : Ranges} {e : Bool} (hk : i.kind = .vload ∨ i.kind = .vstore)
-    (h : hstep false H i fp e = some H') : regOK H i = true ∧ memOK false H i fp = true ∧
-      H' = (if e then H else { H with pv := H.pv ++ [(i, fp)] }) := by
+theorem hstep_vmem {H H' : HState} {i : Inst} {fp : Ranges} {e old : Bool} (hk : i.kind = .vload ∨ i.kind = .vstore)
+    (h : hstep false old H i fp e = some H') : regOK H i = true ∧ memOK false H i fp = true ∧
+      H' = (if e then (if old then H else { H with pv := [] }) else { H with pv := H.pv ++ [(i, fp)] }) := by
   unfold hstep at h
   rcases hk with hk | hk <;> simp only [hk] at h <;> split at h
   · rename_i hr; cases h; simp only [Bool.and_eq_true] at hr; exact ⟨hr.1, hr.2, rfl⟩
@@ -460,8 +486,8 @@ theorem hstep_vmem {H H' : HState} {i : Inst} {fp : Ranges} {e : Bool} (hk : i.k
   · rename_i hr; cases h; simp only [Bool.and_eq_true] at hr; exact ⟨hr.1, hr.2, rfl⟩
   · cases h
 
-theorem hstep_sload {H H' : HState} {i : Inst} {fp : Ranges} {e : Bool} (hk : i.kind = .sload)
-    (h : hstep false H i fp e = some H') : regOK H i = true ∧ memOK false H i fp = true ∧
+theorem hstep_sload {H H' : HState} {i : Inst} {fp : Ranges} {e old : Bool} (hk : i.kind = .sload)
+    (h : hstep false old H i fp e = some H') : regOK H i = true ∧ memOK false H i fp = true ∧
       H' = { H with ps := H.ps ++ [(i, fp)] } := by
   unfold hstep at h
   simp only [hk] at h
@@ -503,15 +529,35 @@ theorem step_exec (hP : P.WF) {gate} {fuel : Nat} {x0 : EState × HState} (hfr :
       cases hk : i.kind with
       | alu u =>
         simp only [hk] at ht hE'
-        cases ht
         obtain ⟨hreg, rfl⟩ := hstep_alu hk hh
         subst hE'
-        refine ⟨n + 1, _, _, hrun', ⟨hinv.c, ?_, hinv.m, ⟨hinv.f.ibok, ?_⟩, ?_, hinv.pdec⟩⟩
-        · exact InvR.alu T.pc (pcAdd E.pc i.size) hinv.r hiwf hipc (regOK_pend hinv.c hwfp hreg)
-        · intro j hj; rw [hti] at hj; cases hj
-        · show InvP P .executed T.cur T.pc T.trace T.vq T.sq _
-          simp only [InvP]
-          exact ⟨i, hcur, Or.inr ⟨u, hk⟩, by rw [hpc], htr'.symm, hd⟩
+        split at ht
+        · rename_i hu
+          cases ht
+          have hu0 : u = 0 := hu.1
+          refine ⟨n + 1, _, _, hrun', ⟨hinv.c, ?_, hinv.m, ⟨hinv.f.ibok, ?_⟩, ?_, hinv.pdec⟩⟩
+          · exact InvR.alu (pcAdd T.pc i.size) (pcAdd E.pc i.size) hinv.r hiwf (fun r => by rw [hpc])
+              (regOK_pend hinv.c hwfp hreg)
+          · intro j hj; rw [hti] at hj; cases hj
+          · show InvP P .executed T.cur (pcAdd T.pc i.size) T.trace T.vq T.sq _
+            simp only [InvP]
+            refine ⟨i, hcur, Or.inr ⟨u, hk⟩, ?_, htr'.symm, hd⟩
+            rw [if_pos (by rw [hk, hu0])]
+            show pcAdd E.pc i.size = pcAdd T.pc i.size
+            rw [hpc]
+        · rename_i hu
+          cases ht
+          have hu0 : u ≠ 0 := fun e => hu ⟨e, hP.fixed⟩
+          refine ⟨n + 1, _, _, hrun', ⟨hinv.c, ?_, hinv.m, ⟨hinv.f.ibok, ?_⟩, ?_, hinv.pdec⟩⟩
+          · exact InvR.alu T.pc (pcAdd E.pc i.size) hinv.r hiwf (fun r => hipc u hk hu0 _ _ r)
+              (regOK_pend hinv.c hwfp hreg)
+          · intro j hj; rw [hti] at hj; cases hj
+          · show InvP P .executed T.cur T.pc T.trace T.vq T.sq _
+            simp only [InvP]
+            refine ⟨i, hcur, Or.inr ⟨u, hk⟩, ?_, htr'.symm, hd⟩
+            rw [if_neg (by rw [hk]; intro e; cases e; exact hu0 rfl)]
+            show pcAdd E.pc i.size = pcAdd T.pc i.size
+            rw [hpc]
       | branch =>
         simp only [hk] at ht hE'
         cases ht
@@ -523,6 +569,7 @@ theorem step_exec (hP : P.WF) {gate} {fuel : Nat} {x0 : EState × HState} (hfr :
         · show InvP P .executed T.cur (i.tgt T.regs T.pc) T.trace T.vq T.sq _
           simp only [InvP]
           refine ⟨i, hcur, Or.inl hk, ?_, htr'.symm, hd⟩
+          rw [if_neg (by rw [hk]; intro e; cases e)]
           show i.tgt E.regs (pcAdd E.pc i.size) = pcAdd (i.tgt T.regs T.pc) i.size
           rw [hiwf.tgt_rel, hpc, hiwf.tgt_dep E.regs T.regs T.pc (fun x hx => hag x (List.mem_append_left _ hx))]
       | vload =>
@@ -543,15 +590,22 @@ theorem step_exec (hP : P.WF) {gate} {fuel : Nat} {x0 : EState × HState} (hfr :
         subst hE'
         by_cases hnt : i.noTxn T.regs = true
         · simp only [hnt, if_true] at ht
-          rw [hst.2.2, hnt] at hH'
-          simp only [if_true] at hH'
+          rw [hst.2.2, hnt, hP.fixed] at hH'
+          simp only [if_true, Bool.false_eq_true, if_false] at hH'
           subst hH'
+          split at ht
+          · cases ht
+          rename_i hvm
+          have hvm0 : T.vm = 0 := by
+            cases hv : T.vm with
+            | zero => rfl
+            | succ k => exact absurd ⟨hP.fixed, by rw [hv]; omega⟩ hvm
           have hregs : i.ld E.regs E.mem = E.regs := by
             funext x
             apply hiwf.ld_frame
             rw [hiwf.noTxn_ld E.regs (by rw [hst.2.2]; exact hnt)]
             simp
-          refine ⟨n + 1, _, _, hrun', inv_advance ht hinv.c ?_ hinv.m hinv.f.ibok hti (by show pcAdd E.pc i.size = _; rw [hpc]) htr' hd hinv.pdec⟩
+          refine ⟨n + 1, _, _, hrun', inv_advance ht (hinv.c.clear hvm0) ?_ hinv.m hinv.f.ibok hti (by show pcAdd E.pc i.size = _; rw [hpc]) htr' hd hinv.pdec⟩
           show InvR T.regs T.mem (T.vq ++ T.sq) (i.ld E.regs E.mem)
           rw [hregs]
           exact hinv.r
@@ -608,14 +662,21 @@ theorem step_exec (hP : P.WF) {gate} {fuel : Nat} {x0 : EState × HState} (hfr :
         subst hE'
         by_cases hnt : i.noTxn T.regs = true
         · simp only [hnt, if_true] at ht
-          rw [hst.2.2, hnt] at hH'
-          simp only [if_true] at hH'
+          rw [hst.2.2, hnt, hP.fixed] at hH'
+          simp only [if_true, Bool.false_eq_true, if_false] at hH'
           subst hH'
+          split at ht
+          · cases ht
+          rename_i hvm
+          have hvm0 : T.vm = 0 := by
+            cases hv : T.vm with
+            | zero => rfl
+            | succ k => exact absurd ⟨hP.fixed, by rw [hv]; omega⟩ hvm
           have hmem : i.stf E.regs E.mem = E.mem := by
             funext a
             apply hiwf.st_frame his
             exact hiwf.noTxn_st E.regs a (by rw [hst.2.2]; exact hnt)
-          refine ⟨n + 1, _, _, hrun', inv_advance ht hinv.c hinv.r ?_ hinv.f.ibok hti (by show pcAdd E.pc i.size = _; rw [hpc]) htr' hd hinv.pdec⟩
+          refine ⟨n + 1, _, _, hrun', inv_advance ht (hinv.c.clear hvm0) hinv.r ?_ hinv.f.ibok hti (by show pcAdd E.pc i.size = _; rw [hpc]) htr' hd hinv.pdec⟩
           show InvM P.own T.mem T.vq (i.stf E.regs E.mem)
           rw [hmem]
           exact hinv.m
@@ -712,7 +773,14 @@ theorem step_complete (hP : P.WF) {gate} {fuel : Nat} {x0 : EState × HState} (h
         obtain ⟨i', hc', _, hpc, htr, hd⟩ := hp
         rw [hcur] at hc'; cases hc'
         have hti := toIssue_none_of_not_ready hinv (by rw [hph]; decide)
-        exact ⟨n, E, H, hrun, inv_advance ht hinv.c hinv.r hinv.m hinv.f.ibok hti hpc htr.symm hd hinv.pdec⟩
+        split at ht
+        · rename_i hu
+          rw [if_pos (by rw [hk, hu.1])] at hpc
+          exact ⟨n, E, H, hrun, inv_setReady ht hinv.c hinv.r hinv.m hinv.f.ibok hti hpc htr.symm hd hinv.pdec⟩
+        · rename_i hu
+          have hu0 : u ≠ 0 := fun e => hu ⟨e, hP.fixed⟩
+          rw [if_neg (by rw [hk]; intro e; cases e; exact hu0 rfl)] at hpc
+          exact ⟨n, E, H, hrun, inv_advance ht hinv.c hinv.r hinv.m hinv.f.ibok hti hpc htr.symm hd hinv.pdec⟩
       · cases ht
     | branch =>
       simp only [hk] at ht
@@ -725,6 +793,7 @@ theorem step_complete (hP : P.WF) {gate} {fuel : Nat} {x0 : EState × HState} (h
         simp only [InvP] at hp
         obtain ⟨i', hc', _, hpc, htr, hd⟩ := hp
         rw [hcur] at hc'; cases hc'
+        rw [if_neg (by rw [hk]; intro e; cases e)] at hpc
         have hti := toIssue_none_of_not_ready hinv (by rw [hph]; decide)
         refine ⟨n, E, H, hrun, ⟨hinv.c, hinv.r, hinv.m, ⟨?_, ?_⟩, ?_, hinv.pdec⟩⟩
         · intro k hk'; simp at hk'
